@@ -4,6 +4,9 @@ mod common;
 
 fuzz_target!(|data: &[u8]| {
     if let Ok(text) = std::str::from_utf8(data) {
+        if !common::nesting_in_scope(text) {
+            return;
+        }
         if let Ok(rule) = tau_engine::Rule::from_str(text) {
             common::exercise(rule);
         }
